@@ -245,4 +245,5 @@ pub fn run(ctx: &mut Ctx) {
     }
     crate::spaces::render_probes(ctx, &["merge", "in"]);
     crate::spaces::width_probes(ctx);
+    crate::spaces::type_grid_probes(ctx, &["merge", "in"]);
 }
